@@ -1009,9 +1009,20 @@ def wl_synthetic2(kind: str) -> Workflow:
         wf = workflow([a, b, c, d])
         c.parent_stage_id = b.id
         return wf
-    p = stage("p")
-    x = stage("x", tasks={"t1": {"kind": "terminal"}}, synthetic_stage_owner=SyntheticStageOwner.STAGE_BEFORE)
-    y = stage("y", tasks={"t1": dict(OK), "t2": dict(OK)}, synthetic_stage_owner=SyntheticStageOwner.STAGE_BEFORE)
+    if kind == "before2_t2":
+        # two parallel before-stages that both succeed (two ContinueParentStage messages), parent with two tasks
+        p = stage("p", tasks={"t1": dict(OK), "t2": dict(OK)})
+        x = stage("x", synthetic_stage_owner=SyntheticStageOwner.STAGE_BEFORE)
+        y = stage("y", tasks={"t1": dict(OK), "t2": dict(OK)}, synthetic_stage_owner=SyntheticStageOwner.STAGE_BEFORE)
+    elif kind in ("before2_latefail_cont", "before2_latefail_stop"):
+        # x succeeds first (its ContinueParentStage waits for y), y fails later; p carries a failure policy
+        p = stage("p", ctx={"continuePipelineOnFailure": True} if kind.endswith("_cont") else {"failPipeline": False})
+        x = stage("x", synthetic_stage_owner=SyntheticStageOwner.STAGE_BEFORE)
+        y = stage("y", tasks={"t1": dict(OK), "t2": {"kind": "terminal"}}, synthetic_stage_owner=SyntheticStageOwner.STAGE_BEFORE)
+    else:
+        p = stage("p")
+        x = stage("x", tasks={"t1": {"kind": "terminal"}}, synthetic_stage_owner=SyntheticStageOwner.STAGE_BEFORE)
+        y = stage("y", tasks={"t1": dict(OK), "t2": dict(OK)}, synthetic_stage_owner=SyntheticStageOwner.STAGE_BEFORE)
     d = stage("d", ["p"])
     wf = workflow([p, x, y, d])
     x.parent_stage_id = p.id
@@ -1086,6 +1097,9 @@ WORKLOADS: dict[str, Callable[[], Workflow]] = {
     "after2_failcont": lambda: wl_synthetic("after2_failcont"),
     "fail_beside_before": lambda: wl_synthetic2("fail_beside_before"),
     "before2_fail": lambda: wl_synthetic2("before2_fail"),
+    "before2_t2": lambda: wl_synthetic2("before2_t2"),
+    "before2_latefail_cont": lambda: wl_synthetic2("before2_latefail_cont"),
+    "before2_latefail_stop": lambda: wl_synthetic2("before2_latefail_stop"),
     "before1": lambda: wl_synthetic("before1"),
     "before1_fail": lambda: wl_synthetic("before1_fail"),
 }
